@@ -21,6 +21,8 @@ def dispatch (j : Json) : R Json := do
   | "ws_combine" => opWsCombine j
   | "ws_sorted" => opWsSorted j
   | "events" => opEvents j
+  | "grad" => opGrad j
+  | "prob" => opProb j
   | _ => throw s!"unknown op {op}"
 
 partial def loop (hin hout : IO.FS.Stream) : IO Unit := do
